@@ -42,6 +42,7 @@ EXTENDS Mat, SymLog, FiniteSets, Json
 CONSTANTS MaxDim,                \* largest dimension of the generic families (3)
           Thorough,              \* TRUE: wider lattices
           Emit,                  \* TRUE: print one @@CASE line per configuration
+          Fams,                  \* families enumerated in this run
           SqrtcovDocConvention   \* named deviation (see above); FALSE in the deciding configurations
 
 VARIABLE c                       \* configuration record
@@ -303,50 +304,34 @@ Dims == 1..MaxDim
 IX == 1..8                               \* generous index range; ValidIdx keeps the patterns of the tier
 NQ == IF Thorough THEN 4 ELSE 2          \* number of constant patterns used by the quick tier
 
-Configs ==
-       { Cfg("Normal", d, a, b, 1, x, 0) : d \in Dims, a \in IX, b \in IX, x \in IX }
-  \cup { Cfg("Laplace", d, a, b, 1, x, 0) : d \in Dims, a \in IX, b \in IX, x \in IX }
-  \cup { Cfg("SmoothedLaplace", d, a, b, g, x, 0) : d \in Dims, a \in IX, b \in IX, g \in IX, x \in IX }
-  \cup { Cfg("Cauchy", d, a, b, 1, x, 0) : d \in Dims, a \in IX, b \in IX, x \in IX }
-  \cup { Cfg("Gamma", d, a, b, 1, x, o) : d \in Dims, a \in IX, b \in IX, x \in IX, o \in 0..1 }
-  \cup { Cfg("InverseGamma", d, a, b, g, x, o) : d \in Dims, a \in IX, b \in IX, g \in IX, x \in IX, o \in 0..1 }
-  \cup { Cfg("Beta", d, a, b, 1, x, o) : d \in Dims, a \in IX, b \in IX, x \in IX, o \in 0..2 }
-  \cup { Cfg("Uniform", d, a, b, 1, x, o) : d \in Dims, a \in IX, b \in IX, x \in IX, o \in 0..2 }
-  \cup { Cfg("ModifiedHalfNormal", 1, a, b, g, x, o) : a \in IX, b \in IX, g \in IX, x \in IX, o \in 0..1 }
-  \cup { Cfg("Lognormal", d, a, b, g, x, o) : d \in Dims, a \in IX, b \in IX, g \in IX, x \in IX, o \in 0..1 }
-  \cup { Cfg("Gaussian", d, a, b, g, x, 0) : d \in Dims, a \in IX, b \in IX, g \in IX, x \in IX }
-  \cup { Cfg("GaussianBig", d, a, 1, g, x, 0) : d \in {75, 76}, a \in {2, 4}, g \in {2, 4}, x \in {1, 5} }
-  \cup { CfgM(fam, pd, n, a, b, x, bc, ord, wm) :
-           fam \in {"GMRF", "LMRF", "CMRF"}, pd \in {1, 2}, n \in 2..5, a \in IX, b \in IX, x \in IX,
-           bc \in {"zero", "periodic", "neumann"}, ord \in 0..2, wm \in {1, 2} }
-
-\* index ranges actually used (quick tier: fewer patterns); anything outside is not a configuration
-InIdx(L, d, nq, k) == k \in PatIdx(L, d, nq)
+PI(L, d) == PatIdx(L, d, NQ)
+NB == IF Thorough THEN 3 ELSE 2
+FamConfigs(fam) ==
+    CASE fam = "Normal" -> UNION {{ Cfg(fam, d, a, b, 1, x, 0) : a \in PI(LLoc, d), b \in PI(LStd, d), x \in PI(LOff, d) } : d \in Dims}
+      [] fam = "Laplace" -> UNION {{ Cfg(fam, d, a, b, 1, x, 0) : a \in PI(LLoc, d), b \in 1..(NB + 1), x \in PI(LOff, d) } : d \in Dims}
+      [] fam = "SmoothedLaplace" -> UNION {{ Cfg(fam, d, a, b, g, x, 0) : a \in PI(LLoc, d), b \in PI(LStd, d), g \in 1..2, x \in PI(LSL1, d) } : d \in Dims}
+      [] fam = "Cauchy" -> UNION {{ Cfg(fam, d, a, b, 1, x, 0) : a \in PI(LLoc, d), b \in PI(LStd, d),
+                                     x \in PatIdx(LCauU, d, IF Thorough THEN 6 ELSE 3) } : d \in Dims}
+      [] fam = "Gamma" -> UNION {{ Cfg(fam, d, a, b, 1, x, o) : a \in PI(LShape, d), b \in PI(LRate, d), x \in PI(LPosX, d), o \in 0..1 } : d \in Dims}
+      [] fam = "InverseGamma" -> UNION {{ Cfg(fam, d, a, b, g, x, o) : a \in PI(LShape, d), b \in PI(LLoc, d), g \in PI(LRate, d),
+                                           x \in PI(LPosX, d), o \in 0..1 } : d \in Dims}
+      [] fam = "Beta" -> UNION {{ Cfg(fam, d, a, b, 1, x, o) : a \in PI(LShape, d), b \in PI(LShape, d), x \in PI(LUnit, d), o \in 0..2 } : d \in Dims}
+      [] fam = "Uniform" -> UNION {{ Cfg(fam, d, a, b, 1, x, o) : a \in PI(LLoc, d), b \in PI(LStd, d), x \in PI(LUnit, d), o \in 0..2 } : d \in Dims}
+      [] fam = "ModifiedHalfNormal" -> { Cfg(fam, 1, a, b, g, x, o) : a \in 1..3, b \in 1..3, g \in 1..4, x \in 1..3, o \in 0..1 }
+      [] fam = "Lognormal" -> UNION {{ Cfg(fam, d, a, b, g, x, o) : a \in PI(LMu, d), b \in 1..NUT(d), g \in PI(LLam, d), x \in PI(LK, d), o \in 0..1 } : d \in Dims}
+      [] fam = "Gaussian" -> UNION {{ Cfg(fam, d, a, b, g, x, 0) : a \in PI(LLoc, d), b \in 1..NUT(d), g \in PI(LLam, d), x \in PI(LOff, d) } : d \in Dims}
+      [] fam = "GaussianBig" -> { Cfg(fam, d, a, 1, g, x, 0) : d \in {75, 76}, a \in {2, 4}, g \in {2, 4}, x \in {1, 5} }
+      [] OTHER -> UNION {{ CfgM(fam, pd, n, a, b, x, bc, ord, wm) :
+                             a \in PI(LLoc, MrfDim(pd, n)), b \in 1..NB, x \in PI(LInt, MrfDim(pd, n)),
+                             bc \in {"zero", "periodic", "neumann"}, ord \in (IF fam = "GMRF" THEN 0..2 ELSE {1}), wm \in {1, 2} }
+                         : pd \in {1, 2}, n \in 2..(IF Thorough THEN 5 ELSE 4)}
+Configs == UNION {FamConfigs(f) : f \in Fams}
 
 MrfN(k)  == MrfDim(k.pd, k.dim)
-ValidMrf(k) ==
-    /\ MrfValid(k.pd, k.dim, k.bc, k.ord, k.wm)
-    /\ (k.pd = 2 => k.dim = 2)
-    /\ (k.pd = 1 => k.dim <= (IF Thorough THEN 5 ELSE 4))
-    /\ (k.fam # "GMRF" => k.ord = 1)
-    /\ InIdx(LLoc, MrfN(k), NQ, k.a) /\ k.b \in 1..(IF Thorough THEN 3 ELSE 2) /\ InIdx(LInt, MrfN(k), NQ, k.x)
-
 ValidIdx(k) ==
-    LET d == k.dim IN
-    CASE k.fam = "Normal"  -> InIdx(LLoc, d, NQ, k.a) /\ InIdx(LStd, d, NQ, k.b) /\ InIdx(LOff, d, NQ, k.x)
-      [] k.fam = "Laplace" -> InIdx(LLoc, d, NQ, k.a) /\ k.b \in 1..(IF Thorough THEN 4 ELSE 2) /\ InIdx(LOff, d, NQ, k.x)
-      [] k.fam = "SmoothedLaplace" -> InIdx(LLoc, d, NQ, k.a) /\ InIdx(LStd, d, NQ, k.b) /\ InIdx(LSL1, d, NQ, k.x) /\ k.g \in 1..2
-      [] k.fam = "Cauchy"  -> InIdx(LLoc, d, NQ, k.a) /\ InIdx(LStd, d, NQ, k.b) /\ InIdx(LCauU, d, IF Thorough THEN 6 ELSE 3, k.x)
-      [] k.fam = "Gamma"   -> InIdx(LShape, d, NQ, k.a) /\ InIdx(LRate, d, NQ, k.b) /\ InIdx(LPosX, d, NQ, k.x)
-      [] k.fam = "InverseGamma" -> InIdx(LShape, d, NQ, k.a) /\ InIdx(LLoc, d, NQ, k.b) /\ InIdx(LRate, d, NQ, k.g)
-                                   /\ InIdx(LPosX, d, NQ, k.x)
-      [] k.fam = "Beta"    -> InIdx(LShape, d, NQ, k.a) /\ InIdx(LShape, d, NQ, k.b) /\ InIdx(LUnit, d, NQ, k.x)
-      [] k.fam = "Uniform" -> InIdx(LLoc, d, NQ, k.a) /\ InIdx(LStd, d, NQ, k.b) /\ InIdx(LUnit, d, NQ, k.x)
-      [] k.fam = "ModifiedHalfNormal" -> k.a \in 1..3 /\ k.b \in 1..3 /\ k.g \in 1..4 /\ k.x \in 1..3
-      [] k.fam = "Lognormal" -> InIdx(LMu, d, NQ, k.a) /\ k.b \in 1..NUT(d) /\ InIdx(LLam, d, NQ, k.g) /\ InIdx(LK, d, NQ, k.x)
-      [] k.fam = "Gaussian"  -> InIdx(LLoc, d, NQ, k.a) /\ k.b \in 1..NUT(d) /\ InIdx(LLam, d, NQ, k.g) /\ InIdx(LOff, d, NQ, k.x)
-      [] k.fam = "GaussianBig" -> TRUE
-      [] OTHER -> ValidMrf(k)
+    k.fam \in {"GMRF", "LMRF", "CMRF"} =>
+       /\ MrfValid(k.pd, k.dim, k.bc, k.ord, k.wm)
+       /\ (k.pd = 2 => k.dim = 2)
 
 \* ---------------------------------------------------------------------------
 \* the case of a configuration: parameters, point, expected values
